@@ -10,4 +10,4 @@ Extraction "xsmodel.ml" step run empty_store a_step a_empty hyp_ok hyp_all a_ctx
   serve dsl_closure dec quote
   parse_ttl ttl_to_string ttl_of_pairs ro_of_pairs ro_to_pairs
   compact_handlers compact_generators compact_commands spec_handlers spec_generators spec_commands
-  call_frames lifecycles cserve_step cboot duplex_input.
+  call_frames lifecycles cserve_step cboot duplex_input instance_input.
